@@ -1,22 +1,37 @@
 """C15 - the persisted-query cache binds a hash only to the text that hashes to it.
 
-extract  : go/extract ApqProg re-translates MutateOperationParameters (+ pinned cache/hash bodies) -> Gen/ApqProg.lean
+extract  : go/extract ApqProg re-translates MutateOperationParameters (+ pinned cache/hash bodies) -> Gen/ApqProg.lean;
+           PostPool enumerates the return paths of every function of package transport that takes an object from a
+           sync.Pool (get / use / put events, deferred calls where they run) -> Gen/PostPool.lean
 prove    : Props/C15 (all histories, all lawful caches, MapCache/NoCache/LRU(n) lawful) + Props/C15Gen (regenerated body = step)
-tie      : real extension through graphql/executor with a recording cache around the real MapCache/NoCache/lru.New(n):
-           exhaustive histories over 3 texts x 6 request kinds, seeded random long histories with eviction, directed
-           adversarial histories; per-request outcome, executed text, cache calls and final contents compared with the model
+           + Props/C15Pool (disciplined paths => no two requests in flight share a RawParams; the regenerated paths are disciplined)
+tie      : real extension through graphql/executor with a recording cache around the real MapCache/NoCache/lru.New(n),
+           with and without a parsed-document cache (+q): exhaustive histories over 3 texts x 6 request kinds, seeded random
+           long histories with eviction, directed adversarial histories (harness + corpus/C15/histories.txt: layout siblings
+           of one document sent with each other's hashes, weak-key collision pairs); the same tokens over HTTP (@http:
+           handler.Server, POST with pooled params, GET) with undecodable bodies and pairs of requests in flight at once;
+           per-request outcome, executed document, cache calls and final contents compared with the model
 decide   : the Spec (Apq.specOk, proved to hold of the model for all inputs) is evaluated by the Lean driver on the
            implementation's own trace of EVERY history; a Spec failure is a concrete failing history (shrunk)
 """
 import json
 import os
+import re
 from collections import Counter
 from concurrent.futures import ThreadPoolExecutor
 
 from lib import vf
 
-PROPS = ["GqlgenVerif.Props.C15", "GqlgenVerif.Props.C15Gen"]
+PROPS = ["GqlgenVerif.Props.C15", "GqlgenVerif.Props.C15Gen", "GqlgenVerif.Props.C15Pool"]
 NALPHA = 18
+CORPUS = os.path.join(vf.VERIF, "corpus", "C15", "histories.txt")
+_RAW = re.compile(r"!raw=[^| ]*")
+
+
+def _for_spec(obs):
+    """`!raw=` marks OperationContext.RawQuery differing from the text APQ left in the params: a divergence from
+    the model, but the rest of the observation (outcome, executed document, cache calls) is still judged by the Spec."""
+    return _RAW.sub("", obs)
 
 
 def _driver_exe():
@@ -56,6 +71,8 @@ def _classify(req, ob, added, live):
     """branch class of one request (implementation side), for the input-distribution histogram."""
     q, ext, _shape = req.split("/")
     cls, _x, ops = ob.split("|")
+    if q == "!":
+        return "undecodable-body"
     if ext == "a":
         return "no-extension" if q != "-" else "no-extension-empty-query"
     if ext == "m":
@@ -87,6 +104,7 @@ class Acc:
         self.specbad = []    # (row, verdict)
         self.unparsable = 0
         self.samples = []
+        self.http = Counter()
 
 
 def _process(acc, gen, tabs, runs, have_driver):
@@ -95,7 +113,7 @@ def _process(acc, gen, tabs, runs, have_driver):
     model = verdicts = None
     if have_driver:
         out = _run_driver(tabl + ["run %s %s" % (r[1], r[2]) for r in runs] +
-                          ["chk %s %s\t%s\t%s" % (r[1], r[2], r[3], r[4]) for r in runs])
+                          ["chk %s %s\t%s\t%s" % (r[1], r[2], _for_spec(r[3]), r[4]) for r in runs])
         model = out[len(tabl):len(tabl) + len(runs)]
         verdicts = out[len(tabl) + len(runs):]
         if len(model) != len(runs) or len(verdicts) != len(runs):
@@ -111,6 +129,24 @@ def _process(acc, gen, tabs, runs, have_driver):
         # which hashes are still cached is only known at the end; approximate "evicted" as added and absent at the end
         final = set(p.split(">")[0] for p in r[4].split(" ")) if r[4] != "-" else set()
         nt = False
+        if "@http" in r[1]:
+            acc.http["histories"] += 1
+            acc.http["requests"] += len(reqs)
+            pairs = sum(1 for rq in reqs if rq.endswith(("~p2", "~q2")))
+            faults = sum(1 for rq in reqs if rq.startswith("!/"))
+            acc.http["pairs_in_flight_at_once"] += pairs
+            acc.http["undecodable_bodies"] += faults
+            acc.http["GET_requests"] += sum(1 for rq in reqs if "@g" in rq)
+            seen_fault = False
+            for rq in reqs:
+                if rq.startswith("!/"):
+                    seen_fault = True
+                elif seen_fault and rq.endswith(("~p2", "~q2")):
+                    acc.http["histories_with_pair_after_undecodable_body"] += 1
+                    nt = True
+                    break
+        if "+q" in r[1]:
+            acc.http["histories_with_document_cache"] += 1
         for rq, ob in zip(reqs, obs):
             parts = ob.split("|")
             c = _classify(rq, ob, added, final) if len(parts) == 3 and rq.count("/") == 2 else "unclassified"
@@ -139,7 +175,7 @@ def _replay_one(hbin, kind, toks):
     tabs, runs = _run_harness(hbin, ["-replay", "%s|%s" % (kind, " ".join(toks))])
     r = runs[0]
     tabl = [" ".join(t) for t in tabs]
-    out = _run_driver(tabl + ["run %s %s" % (r[1], r[2]), "chk %s %s\t%s\t%s" % (r[1], r[2], r[3], r[4])])
+    out = _run_driver(tabl + ["run %s %s" % (r[1], r[2]), "chk %s %s\t%s\t%s" % (r[1], r[2], _for_spec(r[3]), r[4])])
     return r, out[len(tabl)], out[len(tabl) + 1]
 
 
@@ -175,6 +211,18 @@ def _report(ctx, hbin, r, model_line, verdict, kind_of):
         rr, mm, vv = _replay_one(hbin, kind, small)
     except Exception:
         rr, mm, vv = r, model_line, verdict
+    reproduced = True
+    if failing and not (vv or "").startswith("violates"):
+        # the Spec failure was observed in the batch run but not when the history is replayed alone: it depends on
+        # what ran at the same time (the exhaustive batches run histories on several goroutines). Report what was observed.
+        reproduced = False
+        small = toks
+        try:
+            rj = _replay_one(hbin, kind, toks)[0]
+            rr = list(r[:5]) + ([rj[5]] if len(rj) > 5 else [])
+        except Exception:
+            rr = r
+        mm, vv = model_line or mm, verdict
     classes = sorted(set(o.split("|")[0].split(":")[0] for o in rr[3].split(" "))) if rr[3] != "-" else []
     rep = {
         "kind": kind_of,
@@ -185,6 +233,7 @@ def _report(ctx, hbin, r, model_line, verdict, kind_of):
         "model": mm,
         "spec_verdict": vv,
         "original_history": r[2],
+        "reproduced_when_replayed_alone": reproduced,
         "shape": {"cache": kind, "verdict": (vv or "").split(":")[0], "classes": ",".join(classes)},
         "token_format": "<text id|->/<a|m|version,hash>/<concrete shape>; observed <class>|x:<executed text>|<cache calls>",
         "replay": "cd /verif/go && go run -tags verif ./harness/c15 -replay '%s|%s'   # then compare with: driver_c15 run/chk; "
@@ -199,10 +248,14 @@ def run(ctx):
         "mapstructure.Decode (library) is modelled by the harness's classification of concrete extension values into absent / malformed / decoded(version, sha); the classification is exercised by the correspondence run (float64, json.Number, int, fractional, missing and nil keys, wrong types)",
         "hashicorp/golang-lru (library) is modelled as a bounded recency list (Get refreshes, Add refreshes or evicts the oldest); tied by histories with eviction on lru.New(1..4)",
         "gqlparser parse/validate is a parameter `valid` of the model: which texts the executor accepts is taken from the harness's text table and checked against the mock ExecutableSchema's record of executed texts",
-        "requests are sequential (one history = one goroutine); concurrent access to the cache is outside C15",
+        "requests in flight at once: the pool discipline of POST.Do is regenerated and proved (Props/C15Pool: get use* put on every return path => no two requests share a RawParams, any interleaving); on the implementation only the interleavings 'both requests decoded before either passes APQ, then one after the other' (both decode orders) are forced, on one P with the collector off so that sync.Pool is deterministic; truly simultaneous execution inside the extension / the cache is not scheduled (the cache implementations' own thread-safety is outside C15)",
+        "which document Exec runs is observed through a signature of OperationContext.Doc (alias, name, first argument of the first field), independent of RawQuery; layout siblings of one document share a signature",
+        "weak-key pairs: texts whose SHA-256 hex strings collide under FNV-1/1a-32, CRC-32, Adler-32 and 32-bit prefix/suffix truncation are found by birthday search at start-up; other lossy key transformations are not probed",
     ]
-    ok_extract = ctx.extract("ApqProg")
-    proved = ctx.prove(props=PROPS if ok_extract else PROPS[:1])
+    ok_prog = ctx.extract("ApqProg")
+    ok_pool = ctx.extract("PostPool")
+    ok_extract = ok_prog and ok_pool
+    proved = ctx.prove(props=[p for p, ok in zip(PROPS, (True, ok_prog, ok_pool)) if ok])
     if not proved:
         ctx.cov["proof_failure"] = ctx.proof_failure
     have_driver = getattr(ctx, "driver_ok", False)
@@ -223,13 +276,16 @@ def run(ctx):
 
     acc = Acc()
     thorough = ctx.tier == "thorough"
-    tabs, runs = _run_harness(hbin, ["-mode", "all", "-tier", ctx.tier, "-seed", ctx.seed])
-    _process(acc, "directed+random+exhaustive<=3", tabs, runs, have_driver)
+    tabs, runs = _run_harness(hbin, ["-mode", "all", "-tier", ctx.tier, "-seed", ctx.seed, "-corpus", CORPUS])
+    _process(acc, "directed+corpus+weak-key+random+exhaustive<=3", tabs, runs, have_driver)
+    # histories carried over HTTP (own process: one P, collector off - see go/harness/c15/http.go)
+    tabs, runs = _run_harness(hbin, ["-mode", "http", "-tier", ctx.tier, "-seed", ctx.seed, "-corpus", CORPUS])
+    _process(acc, "http:corpus+weak-key+exhaustive+random", tabs, runs, have_driver)
 
     # exhaustive chunks
     chunks = []
     if thorough:
-        for c in ("map", "lru1", "lru2", "lru3", "no"):
+        for c in ("map", "lru1", "lru2", "lru3", "no", "map+q", "lru2+q"):
             chunks.append((c, 4, ""))
         for c in ("map", "lru1", "lru2", "lru3"):
             for i in range(NALPHA):
@@ -240,7 +296,7 @@ def run(ctx):
             for j in range(NALPHA):
                 chunks.append(("lru2", 6, "%d,%d" % (i, j)))
     else:
-        for c in ("map", "lru1", "lru2"):
+        for c in ("map", "map+q", "lru1", "lru2"):
             chunks.append((c, 4, ""))
 
     def work(ch):
@@ -250,7 +306,7 @@ def run(ctx):
             args += ["-prefix", pre]
         return ch, _run_harness(hbin, args)
 
-    with ThreadPoolExecutor(max_workers=3 if thorough else 2) as ex:
+    with ThreadPoolExecutor(max_workers=3 if thorough else 4) as ex:
         for ch, (tb, rs) in ex.map(work, chunks):
             _process(acc, "exhaustive-len%d" % ch[1], tb, rs, have_driver)
 
@@ -284,7 +340,11 @@ def run(ctx):
         "histories_by_generator": dict(acc.gen),
         "exhaustive_enumeration": ("all histories over 3 texts x {text only, text+hash, text+other text's hash, hash only, malformed extension, version 2}: "
                        + ("length <=3 on map/lru1/lru2/lru3/no, length 4 on all five, length 5 on map/lru1/lru2/lru3, length 6 on lru2 up to renaming of the texts"
-                          if thorough else "length <=3 on map/lru1/lru2/lru3/no, length 4 on map/lru1/lru2")),
+                          if thorough else "length <=3 on map/lru1/lru2/lru3/no/map+q, length 4 on map/map+q/lru1/lru2")
+                       + "; over HTTP (2 texts x {text+hash, hash only, text+other's hash} + an undecodable body, every adjacent pair of requests "
+                         "also in flight at once in both decode orders): length <=3 on map, 3 on lru1+q, "
+                       + ("4 on map and lru1+q" if thorough else "a 1/8 sample of length 4 on map+q")),
+        "http": dict(acc.http),
         "traces_validated_against_impl": acc.hist if have_driver else 0,
         "correspondence_divergences": len(acc.div),
         "spec_violations_on_implementation_traces": len(acc.specbad),
